@@ -3395,9 +3395,12 @@ class StateEngine(object):
         check that state transitions only occur within the correct "States".
         """
         force_full_lookup = "Branch" in context["State"]
-        state, current_state_machine, state_path = find_state(
-            ASL["States"], current_state, force_full_lookup
-        )
+        state = None
+        if (isinstance(ASL.get("States"), dict) and
+            isinstance(current_state, str) and current_state):
+            state, current_state_machine, state_path = find_state(
+                ASL["States"], current_state, force_full_lookup
+            )
         if not isinstance(state, dict):  # state should be valid by this point
             message = ("{} attempted a transition to a non-existent "
                        "state \"{}\": Illegal State Machine.").format(
